@@ -16,7 +16,10 @@ def url_string_of(I, v):
         if isinstance(x, str) or (is_sym(x) and z3.is_string(x)):
             parts.append(zstr(x))
     f = z3.Function('url.String', *([z3.StringSort()] * len(parts) + [z3.StringSort()]))
-    return f(*parts)
+    r = f(*parts)
+    if any(z3.is_string_value(p) and p.as_string() != '' for p in parts):
+        ctx.add_inv(z3.Length(r) > 0)     # a URL with any non-empty component does not print as the empty string
+    return r
 
 
 @stub('(*net/url.URL).String')
